@@ -291,6 +291,11 @@ func (s *SessionStore) Remove(ctx context.Context, session *Session) {
 		return
 	}
 
+	// A participant may have joined since the caller saw the session empty.
+	if session.ParticipantCount() != 0 {
+		return
+	}
+
 	delete(s.sessions, s.GlobalSessionID(session.ID))
 	session.Close()
 
